@@ -75,6 +75,11 @@ RELEVANT = {
             "facts": ["send_restrictions.", "ctor.x/quarantine/keeper.", "ctor.bank.", "hook_registrations.",
                       "marker_req_attr_bypass_addrs.", "unsanctionable_addrs."],
             "theorems": ["wiring_send_restriction_order", "wiring_quarantine_bypass_packages"]},
+    # C09 and C01/C02 rely on the marker restriction (with the signers / market admin as transfer agents)
+    # being applied to every token or settlement move: a new marker bypass or transfer-agent site matters.
+    "C09": {"flags": ["markertypes."], "key_pkgs": ["x/marker/types"], "key_words": ["marker", "transfer-agent"],
+            "regs": ["SendRestriction"], "facts": ["send_restrictions.", "hook_registrations."],
+            "theorems": ["wiring_send_restriction_order", "wiring_marker_bypass_packages"]},
 }
 
 
